@@ -90,6 +90,8 @@ type recorder struct {
 	steps  []string
 	fault  *faultSpec
 	hit    bool
+	also   *faultSpec // optional second, non-crash fault of the same execution (a failing instance of a deployment that is then crashed)
+	hit2   bool
 	onStep func(label string, occ int, s world.Step) // optional observer (called under mu)
 	inst   *world.Instance
 }
@@ -107,7 +109,14 @@ func (r *recorder) intercept(ctx context.Context, s world.Step) error {
 	if fire {
 		r.hit = true
 	}
+	fire2 := !fire && r.also != nil && !r.hit2 && r.also.Label == label && r.also.Occ == occ
+	if fire2 {
+		r.hit2 = true
+	}
 	r.mu.Unlock()
+	if fire2 {
+		return world.ErrInjected
+	}
 	if fire {
 		if r.fault.Crash {
 			r.inst.Crash()
@@ -377,6 +386,9 @@ func runOp(ctx context.Context, inst *world.Instance, op wOp, pre *world.View) (
 		switch op.Delta {
 		case "+mem":
 			raw["memory-request"] = int64(20)
+			raw["keep-cpu-bind"] = true
+		case "++mem": // more than a small node has free, but not more than free + what the workload already holds
+			raw["memory-request"] = int64(180)
 			raw["keep-cpu-bind"] = true
 		case "-mem":
 			raw["memory-request"] = int64(-20)
